@@ -61,8 +61,9 @@ struct Outcome {
 
 #[derive(Debug, Clone)]
 struct VGap {
-	/// (resource: 0 sound, 1 effect, 2 track, 3 main track; target dB; tween length in frames)
-	cmds: Vec<(usize, f32, usize)>,
+	/// (resource: 0 sound, 1 effect, 2 track, 3 main track; target dB; tween length in frames;
+	/// start time written as a delay of zero instead of "immediate" - the same thing)
+	cmds: Vec<(usize, f32, usize, bool)>,
 	frames: usize,
 }
 
@@ -89,11 +90,11 @@ fn gen_volumes(src: &mut Src) -> VCase {
 	let mut gaps = vec![];
 	for _ in 0..n {
 		let k = src.weighted(&[2, 3, 3, 2, 1, 1]);
-		let mut cmds: Vec<(usize, f32, usize)> = vec![];
+		let mut cmds: Vec<(usize, f32, usize, bool)> = vec![];
 		for _ in 0..k {
 			// bursts on one resource are likely
 			let res = if !cmds.is_empty() && src.chance(1, 2) { cmds[cmds.len() - 1].0 } else { src.index(4) };
-			cmds.push((res, db(src), src.pick(&[0usize, 1, 37, 400, 2000, 10])));
+			cmds.push((res, db(src), src.pick(&[0usize, 1, 37, 400, 2000, 10]), false));
 		}
 		gaps.push(VGap {
 			cmds,
@@ -101,6 +102,11 @@ fn gen_volumes(src: &mut Src) -> VCase {
 		});
 	}
 	let persist_drop = if src.chance(1, 4) { Some(src.usize_in(create_gap, n - 1)) } else { None };
+	for g in gaps.iter_mut() {
+		for c in g.cmds.iter_mut() {
+			c.3 = src.chance(1, 4);
+		}
+	}
 	let start_delay = if src.chance(1, 4) { src.pick(&[150usize, 1, 20, 64, 400]) } else { 0 };
 	VCase { buf, create_gap, init, gaps, persist_drop, start_delay }
 }
@@ -132,8 +138,11 @@ fn run_volumes(c: &VCase) -> Result<Outcome, Failure> {
 			since_creation = 0;
 		}
 		let mut pending: [Option<(f32, usize)>; 4] = [None; 4];
-		for (res, db, dur) in &gap.cmds {
-			let tw = tween_frames(*dur);
+		for (res, db, dur, zero_delay) in &gap.cmds {
+			let mut tw = tween_frames(*dur);
+			if *zero_delay {
+				tw.start_time = StartTime::Delayed(Duration::ZERO);
+			}
 			match (res, &mut live) {
 				(3, _) => mgr.main_track().set_volume(Decibels(*db), tw),
 				(0, Some((_, _, s))) => s.set_volume(Decibels(*db), tw),
@@ -1174,7 +1183,7 @@ impl Property for C07 {
 		"C07"
 	}
 	fn rule(&self) -> &'static str {
-		"each case is one of seven generated scenario families run through the real manager (device rate 8192 Hz, internal buffer 1..128, callback sizes 1..250). V: volume setters with linear tweens of 0..2000 frames on four resources of one signal path (static DC sound, volume-control effect, sub-track, main track), 0..5 commands per gap with bursts on one resource, the path created before the first or a later callback with commands in the same gap, in a quarter of the cases the sound starts 1..400 frames after it was played (commands written while it waits run their tweens all the same) and in a quarter the persisting sub-track's handle is dropped in a gap right after that gap's commands were written; the output is compared frame by frame (1e-4) with a reference that applies the last command of each kind once at the start of the next callback. T: probe Sound / Effect / Modulator objects built on kira::command read a token reader once per on_start_processing; tokens are written 0..4 per gap, also before the probe is added (main-track effect, sub-track effect, effect on a track nested under an existing track, sound on main / existing / just-created / just-created nested track, modulator), and a third of the tracks that hold a probe are paused at some gap; the log of reads must be exactly the last token of every burst, once, in the callback that follows, and on_start_processing must run once per callback from the first one. P: a static ramp sound receives bursts of seek_to / seek_by: the audible index must jump exactly once, in the first 4 frames of the next callback, by the last command's amount (3 frames slack), and never otherwise; a streaming sound receives seek and loop-region bursts while its decoder gets 0..130 steps per gap (hook H2): the indices it delivers must equal a reference transport that applies the last command of each kind at its next step. K: clock start / pause / stop / set_speed bursts against a reference clock (reported time and ticking flag after every callback) and tweener set() bursts observed through a parameter linked to it (1e-9). R: a writer thread publishes 200..20000 self-checking values through one CommandWriter while this thread polls the reader with generated spin patterns: values read are untorn, strictly newer than the previous one, and the last write is read. H: a gameplay thread plays a DC sound and raises sound and track volume monotonically while this thread runs callbacks: the output never decreases, stays in range, and ends at exactly the last written value. S: for each of 43 setters (sound / streaming sound volume, panning, playback rate; track volume and send; send-track and main volume; spatial position, strength, volume; listener position and orientation; every setter of filter, EQ, delay, reverb, compressor, distortion, panning and volume control; tweener set; LFO amplitude, offset, frequency, waveform) a scene built with value A receives the setter with B - alone or as the last of a burst, before the first or a later callback, instantly or with a tween of up to 4096 frames - and, once the tween and the effect memory have run out (0.75 s, reverb 3 s), its steady state (RMS, mean, sign changes per channel over 4096 frames; 1 %, LFO 6 %) must equal that of a scene built with B; the case counts only if the same measure tells A and B apart. Non-trivial = a burst of one kind within a gap, a command while a tween is active, a command before the resource's first callback, a decoder step later than the next callback, (R, H) reads / callbacks that really interleaved with the writes, or (S) a setter whose two values are told apart; distinct = distinct decoded choices."
+		"each case is one of seven generated scenario families run through the real manager (device rate 8192 Hz, internal buffer 1..128, callback sizes 1..250). V: volume setters with linear tweens of 0..2000 frames on four resources of one signal path (static DC sound, volume-control effect, sub-track, main track), 0..5 commands per gap with bursts on one resource, a quarter of the tweens starting after a delay of zero instead of immediately, the path created before the first or a later callback with commands in the same gap, in a quarter of the cases the sound starts 1..400 frames after it was played (commands written while it waits run their tweens all the same) and in a quarter the persisting sub-track's handle is dropped in a gap right after that gap's commands were written; the output is compared frame by frame (1e-4) with a reference that applies the last command of each kind once at the start of the next callback. T: probe Sound / Effect / Modulator objects built on kira::command read a token reader once per on_start_processing; tokens are written 0..4 per gap, also before the probe is added (main-track effect, sub-track effect, effect on a track nested under an existing track, sound on main / existing / just-created / just-created nested track, modulator), and a third of the tracks that hold a probe are paused at some gap; the log of reads must be exactly the last token of every burst, once, in the callback that follows, and on_start_processing must run once per callback from the first one. P: a static ramp sound receives bursts of seek_to / seek_by: the audible index must jump exactly once, in the first 4 frames of the next callback, by the last command's amount (3 frames slack), and never otherwise; a streaming sound receives seek and loop-region bursts while its decoder gets 0..130 steps per gap (hook H2): the indices it delivers must equal a reference transport that applies the last command of each kind at its next step. K: clock start / pause / stop / set_speed bursts against a reference clock (reported time and ticking flag after every callback) and tweener set() bursts observed through a parameter linked to it (1e-9). R: a writer thread publishes 200..20000 self-checking values through one CommandWriter while this thread polls the reader with generated spin patterns: values read are untorn, strictly newer than the previous one, and the last write is read. H: a gameplay thread plays a DC sound and raises sound and track volume monotonically while this thread runs callbacks: the output never decreases, stays in range, and ends at exactly the last written value. S: for each of 43 setters (sound / streaming sound volume, panning, playback rate; track volume and send; send-track and main volume; spatial position, strength, volume; listener position and orientation; every setter of filter, EQ, delay, reverb, compressor, distortion, panning and volume control; tweener set; LFO amplitude, offset, frequency, waveform) a scene built with value A receives the setter with B - alone or as the last of a burst, before the first or a later callback, instantly or with a tween of up to 4096 frames - and, once the tween and the effect memory have run out (0.75 s, reverb 3 s), its steady state (RMS, mean, sign changes per channel over 4096 frames; 1 %, LFO 6 %) must equal that of a scene built with B; the case counts only if the same measure tells A and B apart. Non-trivial = a burst of one kind within a gap, a command while a tween is active, a command before the resource's first callback, a decoder step later than the next callback, (R, H) reads / callbacks that really interleaved with the writes, or (S) a setter whose two values are told apart; distinct = distinct decoded choices."
 	}
 	fn assumptions(&self) -> Vec<String> {
 		vec![
